@@ -119,6 +119,32 @@ func (vc *VC) funcValue(f *ssa.Function) Term {
 	return Term{name, SFunc}
 }
 
+// sentinel: package-level error variables named Err* are modelled as immutable,
+// non-nil, pairwise distinct constants (recorded as an assumption).
+func (vc *VC) sentinel(obj *types.Var) (Term, bool) {
+	if obj.Pkg() == nil || obj.Parent() != obj.Pkg().Scope() {
+		return Term{}, false
+	}
+	if !strings.HasPrefix(obj.Name(), "Err") && !strings.HasPrefix(obj.Name(), "err") {
+		return Term{}, false
+	}
+	if _, ok := obj.Type().Underlying().(*types.Interface); !ok {
+		return Term{}, false
+	}
+	name := "sentinel!" + sanitize(obj.Pkg().Path()+"."+obj.Name())
+	if !vc.uf[name] {
+		vc.DeclareFun(name, nil, SIface)
+		vc.axioms = append(vc.axioms, fmt.Sprintf("(not (= (itag %s) 0))", name))
+		vc.axioms = append(vc.axioms, fmt.Sprintf("(< (rid (iref %s)) 0)", name))
+		for _, o := range vc.sentinels {
+			vc.axioms = append(vc.axioms, fmt.Sprintf("(distinct %s %s)", name, o))
+		}
+		vc.sentinels = append(vc.sentinels, name)
+		vc.assume("package-level error sentinels (Err*) are immutable, non-nil and pairwise distinct")
+	}
+	return Term{name, SIface}, true
+}
+
 func (vc *VC) globalAddr(obj *types.Var) Term {
 	id := vc.ctx.globalID(obj)
 	return MkRef(IntLit(-int64(id)), IntLit(0))
@@ -339,6 +365,7 @@ func (fr *Frame) instr(st *State, b *ssa.BasicBlock, in ssa.Instruction) (bool, 
 	}
 	havocValue := func(v ssa.Value, why string) error {
 		vc.note("%s: %s: %s", fr.pos(in.Pos()), in.String(), why)
+		vc.nondet = true
 		st.taint = True
 		if tup, ok := v.Type().(*types.Tuple); ok {
 			var ts []Term
@@ -416,6 +443,14 @@ func (fr *Frame) instr(st *State, b *ssa.BasicBlock, in ssa.Instruction) (bool, 
 				def(x, Sub(IntLitBig(new(bigInt).Sub(pow2(w), bigOne)), a))
 			}
 		case token.MUL: // load
+			if g, ok := x.X.(*ssa.Global); ok {
+				if obj, ok := g.Object().(*types.Var); ok {
+					if t, ok := vc.sentinel(obj); ok {
+						fr.vals[x] = t
+						break
+					}
+				}
+			}
 			pt := x.X.Type().Underlying().(*types.Pointer)
 			if !derivedAddr(x.X) {
 				fr.safe(st, "nil", Neq(Rid(a), IntLit(0)), in, "nil pointer dereference")
@@ -508,13 +543,13 @@ func (fr *Frame) instr(st *State, b *ssa.BasicBlock, in ssa.Instruction) (bool, 
 		case *types.Slice:
 			elem = u.Elem()
 			ln = SLen(a)
-			r = RefAdd(SBase(a), Mul(idx, IntLit(vc.tt.Slots(elem))))
+			r = ElemAddr(SBase(a), idx, vc.tt.Slots(elem))
 		case *types.Pointer:
 			arr := u.Elem().Underlying().(*types.Array)
 			elem = arr.Elem()
 			ln = IntLit(arr.Len())
 			fr.safe(st, "nil", Neq(Rid(a), IntLit(0)), in, "nil array pointer")
-			r = RefAdd(a, Add(IntLit(1), Mul(idx, IntLit(vc.tt.Slots(elem)))))
+			r = ElemAddr(RefAdd(a, IntLit(1)), idx, vc.tt.Slots(elem))
 		default:
 			return false, fr.unsupportedErr(in, fmt.Errorf("IndexAddr on %s", x.X.Type()))
 		}
@@ -824,7 +859,7 @@ func (fr *Frame) sliceOp(st *State, x *ssa.Slice) error {
 		}
 		fr.safe(st, "slice", And(Le(IntLit(0), lo), Le(lo, hi), Le(hi, mx), Le(mx, cp)), x, "slice bounds out of range")
 		k := vc.tt.Slots(u.Elem())
-		fr.vals[x] = vc.Define(x.Name(), MkSlice(RefAdd(SBase(a), Mul(lo, IntLit(k))), Sub(hi, lo), Sub(mx, lo)))
+		fr.vals[x] = vc.Define(x.Name(), MkSlice(ElemAddr(SBase(a), lo, k), Sub(hi, lo), Sub(mx, lo)))
 	case *types.Pointer:
 		arr := u.Elem().Underlying().(*types.Array)
 		n := IntLit(arr.Len())
@@ -837,7 +872,7 @@ func (fr *Frame) sliceOp(st *State, x *ssa.Slice) error {
 		fr.safe(st, "nil", Neq(Rid(a), IntLit(0)), x, "nil array pointer")
 		fr.safe(st, "slice", And(Le(IntLit(0), lo), Le(lo, hi), Le(hi, mx), Le(mx, n)), x, "slice bounds out of range")
 		k := vc.tt.Slots(arr.Elem())
-		fr.vals[x] = vc.Define(x.Name(), MkSlice(RefAdd(a, Add(IntLit(1), Mul(lo, IntLit(k)))), Sub(hi, lo), Sub(mx, lo)))
+		fr.vals[x] = vc.Define(x.Name(), MkSlice(ElemAddr(RefAdd(a, IntLit(1)), lo, k), Sub(hi, lo), Sub(mx, lo)))
 	case *types.Basic:
 		if !hasHi {
 			hi = App(SInt, "strlen", a)
@@ -1036,7 +1071,14 @@ func (fr *Frame) rangeNext(st *State, x *ssa.Next, havoc func(ssa.Value, string)
 // ---------------------------------------------------------------------------
 // Loops
 
+type mapEffect struct {
+	root   Term
+	ks, vs Sort
+}
+
 type effects struct {
+	mapRoots  []mapEffect
+	ghostVars map[string]bool
 	all    bool
 	sorts  map[Sort][]Term // sort -> rid terms of the objects written; nil slice entry list with unknown=true
 	unk    map[Sort]bool
@@ -1078,9 +1120,98 @@ func (fr *Frame) rootOf(v ssa.Value, li *loopInfo) (Term, bool) {
 	return Term{}, false
 }
 
+// addMapEffect records a write to map m inside loop li: precise if m is loop-invariant.
+func (fr *Frame) addMapEffect(m ssa.Value, li *loopInfo, ef *effects) {
+	vc := fr.vc
+	if in, ok := m.(ssa.Instruction); ok && li.blocks[in.Block()] {
+		// a value loaded inside the loop; accept loads of the same loop-invariant address (field of a parameter)
+		if ld, ok := m.(*ssa.UnOp); ok {
+			if root, ok2 := fr.rootOf(ld.X, li); ok2 && root.Valid() {
+				if t, ok3 := fr.loopInvariantLoad(ld, li); ok3 {
+					mt := m.Type().Underlying().(*types.Map)
+					ks, e1 := vc.tt.SortOf(mt.Key())
+					vs, e2 := vc.tt.SortOf(mt.Elem())
+					if e1 == nil && e2 == nil {
+						ef.mapRoots = append(ef.mapRoots, mapEffect{Rid(t), ks, vs})
+						return
+					}
+				}
+			}
+		}
+		ef.maps = true
+		return
+	}
+	t, err := fr.value(m)
+	mt, isMap := m.Type().Underlying().(*types.Map)
+	if err != nil || !isMap {
+		ef.maps = true
+		return
+	}
+	ks, e1 := vc.tt.SortOf(mt.Key())
+	vs, e2 := vc.tt.SortOf(mt.Elem())
+	if e1 != nil || e2 != nil {
+		ef.maps = true
+		return
+	}
+	ef.mapRoots = append(ef.mapRoots, mapEffect{Rid(t), ks, vs})
+}
+
+// loopInvariantLoad: a load inside the loop from an address computed outside it (or a
+// field address of a loop-invariant pointer) whose sort-heap the loop does not write.
+// Returns the value of the same load performed in the pre-loop state.
+func (fr *Frame) loopInvariantLoad(ld *ssa.UnOp, li *loopInfo) (Term, bool) {
+	vc := fr.vc
+	addr := ld.X
+	var base ssa.Value
+	var off int64
+	for {
+		if fa, ok := addr.(*ssa.FieldAddr); ok {
+			stt := fa.X.Type().Underlying().(*types.Pointer).Elem().Underlying().(*types.Struct)
+			off += vc.tt.FieldOffset(stt, fa.Field)
+			addr = fa.X
+			continue
+		}
+		break
+	}
+	base = addr
+	if in, ok := base.(ssa.Instruction); ok && li.blocks[in.Block()] {
+		return Term{}, false
+	}
+	bt, err := fr.value(base)
+	if err != nil {
+		return Term{}, false
+	}
+	// the loop must not store into the heap of this sort (checked by the caller's effect set later); be conservative:
+	srt, err := vc.tt.SortOf(ld.Type())
+	if err != nil {
+		return Term{}, false
+	}
+	for b := range li.blocks {
+		for _, in := range b.Instrs {
+			if s, ok := in.(*ssa.Store); ok {
+				leaf := map[Sort]bool{}
+				vc.leafSorts(s.Addr.Type().Underlying().(*types.Pointer).Elem(), leaf)
+				if leaf[srt] {
+					return Term{}, false
+				}
+			}
+			if c, ok := in.(ssa.CallInstruction); ok {
+				if _, isB := c.Common().Value.(*ssa.Builtin); !isB {
+					return Term{}, false
+				}
+			}
+		}
+	}
+	v, err := vc.loadRaw(li.preState, RefAdd(bt, IntLit(off)), ld.Type())
+	if err != nil {
+		return Term{}, false
+	}
+	return v, true
+}
+
 func (fr *Frame) loopEffects(li *loopInfo) *effects {
 	vc := fr.vc
-	ef := &effects{sorts: map[Sort][]Term{}, unk: map[Sort]bool{}}
+	ef := &effects{sorts: map[Sort][]Term{}, unk: map[Sort]bool{}, ghostVars: map[string]bool{}}
 	addStore := func(addr ssa.Value, t types.Type) {
 		leaf := map[Sort]bool{}
 		vc.leafSorts(t, leaf)
@@ -1102,7 +1233,7 @@ func (fr *Frame) loopEffects(li *loopInfo) *effects {
 			case *ssa.Store:
 				addStore(x.Addr, x.Addr.Type().Underlying().(*types.Pointer).Elem())
 			case *ssa.MapUpdate:
-				ef.maps = true
+				fr.addMapEffect(x.Map, li, ef)
 			case *ssa.Alloc, *ssa.MakeSlice, *ssa.MakeMap, *ssa.MakeInterface, *ssa.MakeClosure, *ssa.MakeChan:
 				ef.alloc = true
 				if a, ok := x.(*ssa.Alloc); ok {
@@ -1141,6 +1272,7 @@ func (fr *Frame) loopEffects(li *loopInfo) *effects {
 
 func (fr *Frame) enterLoop(li *loopInfo, pre *State, phis []*ssa.Phi, phiEntry map[*ssa.Phi]Term) error {
 	vc := fr.vc
+	vc.nondet = true
 	li.preState = pre.clone()
 	if li.spec == nil {
 		vc.note("%s: loop %d of %s has no invariant (true assumed)", fr.pos(li.header.Instrs[0].Pos()), li.ordinal, fr.fn.Name())
@@ -1193,6 +1325,17 @@ func (fr *Frame) enterLoop(li *loopInfo, pre *State, phis []*ssa.Phi, phiEntry m
 		if ef.maps {
 			hs.maps = map[string]Term{}
 			hs.mbase = vc.freshName("ep")
+		} else {
+			for _, me := range ef.mapRoots {
+				domH := vc.mapHeap(hs, "dom", me.ks, me.vs)
+				valH := vc.mapHeap(hs, "val", me.ks, me.vs)
+				lenH := vc.mapHeap(hs, "len", "", "")
+				vc.setMapHeap(hs, "dom", me.ks, me.vs, Store(domH, me.root, vc.Fresh("domh", SArray(me.ks, SBool))))
+				vc.setMapHeap(hs, "val", me.ks, me.vs, Store(valH, me.root, vc.Fresh("valh", SArray(me.ks, me.vs))))
+				nl := vc.Fresh("lenh", SInt)
+				hs.assume(Ge(nl, IntLit(0)))
+				vc.setMapHeap(hs, "len", "", "", Store(lenH, me.root, nl))
+			}
 		}
 		if ef.alloc {
 			na := vc.Fresh("alloc", SInt)
@@ -1200,10 +1343,19 @@ func (fr *Frame) enterLoop(li *loopInfo, pre *State, phis []*ssa.Phi, phiEntry m
 			hs.alloc = na
 		}
 	}
-	if ef.ghosts || true {
-		for k, g := range hs.ghost {
-			ng := vc.Fresh("gh", g.Sort)
-			hs.ghost[k] = ng
+	for k, g := range hs.ghost {
+		if strings.HasPrefix(k, "gv!") {
+			if !ef.ghostVars[k[3:]] && !ef.all {
+				continue
+			}
+		} else if !ef.ghosts {
+			continue
+		}
+		hs.ghost[k] = vc.Fresh("gh", g.Sort)
+	}
+	for g := range ef.ghostVars {
+		if gv := vc.ctx.ghostVars[g]; gv != nil {
+			vc.havocGhostVar(hs, gv)
 		}
 	}
 	li.phiHavoc = map[*ssa.Phi]Term{}
